@@ -13,6 +13,8 @@
 #include "parser/preprocessor/default.h"
 #include "operators/ops.h"
 #include "fileio/default.h"
+#include "parser/sqf/sqf_formatter.h"
+#include <sstream>
 #include <new>
 
 using namespace sqf::runtime;
@@ -185,6 +187,18 @@ int w_vm_register_dummy(void* p, int kind, const char* name, int prec)
     if (kind == 1) { if (rt->sqfop_exists_unary(n)) return 0; rt->register_sqfop(unary(n, t_any(), "", dummy_u)); return 1; }
     if (rt->sqfop_exists_binary(n)) return 0;
     rt->register_sqfop(binary((short)prec, n, t_any(), t_any(), "", dummy_b)); return 1;
+}
+// ---- string quoting kernels (d_string::to_string_sqf / from_sqf) and the CLI pretty printer (sqf_formatter)
+static size_t copy_out(const std::string& s, char* buf, size_t cap) { size_t n = s.length() < cap ? s.length() : cap; for (size_t i = 0; i < n; i++) buf[i] = s[i]; return s.length(); }
+size_t w_str_quote(const char* in, size_t n, char* out, size_t cap) { d_string d(std::string(in, n)); return copy_out(d.to_string_sqf(), out, cap); }
+size_t w_str_unquote(const char* in, size_t n, char* out, size_t cap) { return copy_out(d_string::from_sqf(std::string_view(in, n)), out, cap); }
+long w_vm_prettify(void* p, const char* text, size_t n, char* out, size_t cap)
+{
+    auto v = (vm_t*)p;
+    std::ostringstream pretty;
+    sqf::parser::sqf::formatter fmt(*v->rt, std::string(text, n), { std::string("harness"), std::string() });
+    fmt.prettify(fmt.getRes(), 0, pretty);
+    return (long)copy_out(pretty.str(), out, cap);
 }
 // config text -> confighost through the real config parser. returns 1 ok, 0 failed
 int w_vm_parse_config(void* p, const char* text, size_t n)
